@@ -206,7 +206,7 @@ uint64_t run_call(const Op &c, Shared &sh, int slice, int nslices) {
         varintFORMeta m;
         memset(&m, 0, sizeof m);
         varintFORAnalyze(in, n, &m);
-        size_t w = varintFOREncode(buf.data(), in, n, &m);
+        size_t w = varintFOREncode(buf.data(), in, n, c.u("nometa") ? nullptr : &m);
         d.u64(w);
         d.bytes(buf.data(), w);
         d.u64(varintFORDecode(buf.data(), out.data(), n));
@@ -277,8 +277,9 @@ uint64_t run_call(const Op &c, Shared &sh, int slice, int nslices) {
         Lib l;
         varintRLEMeta m;
         memset(&m, 0, sizeof m);
-        size_t w = k == "rle.rt" ? varintRLEEncode(buf.data(), in, n, &m)
-                                 : varintRLEEncodeWithHeader(buf.data(), in, n, &m);
+        varintRLEMeta *mp = c.u("nometa") ? nullptr : &m;
+        size_t w = k == "rle.rt" ? varintRLEEncode(buf.data(), in, n, mp)
+                                 : varintRLEEncodeWithHeader(buf.data(), in, n, mp);
         d.u64(w);
         d.bytes(buf.data(), w);
         d.u64(k == "rle.rt" ? varintRLEDecode(buf.data(), out.data(), n)
@@ -292,13 +293,15 @@ uint64_t run_call(const Op &c, Shared &sh, int slice, int nslices) {
         Priv<uint8_t> big((g ? varintEliasGammaMaxBytes(n) : varintEliasDeltaMaxBytes(n)) + 64);
         varintEliasMeta m;
         memset(&m, 0, sizeof m);
-        size_t w = g ? varintEliasGammaEncodeArray(big.data(), in, n, &m)
-                     : varintEliasDeltaEncodeArray(big.data(), in, n, &m);
+        bool nometa = c.u("nometa") != 0;
+        size_t w = g ? varintEliasGammaEncodeArray(big.data(), in, n, nometa ? nullptr : &m)
+                     : varintEliasDeltaEncodeArray(big.data(), in, n, nometa ? nullptr : &m);
+        size_t bits = nometa ? w * 8 : m.totalBits;
         d.u64(w);
-        d.u64(m.totalBits);
+        d.u64(bits);
         d.bytes(big.data(), w);
-        d.u64(g ? varintEliasGammaDecodeArray(big.data(), m.totalBits, out.data(), n)
-                : varintEliasDeltaDecodeArray(big.data(), m.totalBits, out.data(), n));
+        d.u64(g ? varintEliasGammaDecodeArray(big.data(), bits, out.data(), n)
+                : varintEliasDeltaDecodeArray(big.data(), bits, out.data(), n));
         d.bytes(out.data(), n * 8);
     } else if (k == "bp128.32" || k == "bp128d.32") {
         Lib l;
@@ -307,8 +310,9 @@ uint64_t run_call(const Op &c, Shared &sh, int slice, int nslices) {
         Priv<uint8_t> big(varintBP128MaxBytes(n) + 64);
         varintBP128Meta m;
         memset(&m, 0, sizeof m);
-        size_t w = k == "bp128.32" ? varintBP128Encode32(big.data(), v32.data(), n, &m)
-                                   : varintBP128DeltaEncode32(big.data(), v32.data(), n, &m);
+        varintBP128Meta *mp = c.u("nometa") ? nullptr : &m;
+        size_t w = k == "bp128.32" ? varintBP128Encode32(big.data(), v32.data(), n, mp)
+                                   : varintBP128DeltaEncode32(big.data(), v32.data(), n, mp);
         d.u64(w);
         d.bytes(big.data(), w);
         d.u64(k == "bp128.32" ? varintBP128Decode32(big.data(), o32.data(), n)
@@ -319,8 +323,9 @@ uint64_t run_call(const Op &c, Shared &sh, int slice, int nslices) {
         Priv<uint8_t> big(varintBP128MaxBytes(n) * 2 + 64);
         varintBP128Meta m;
         memset(&m, 0, sizeof m);
-        size_t w = k == "bp128.64" ? varintBP128Encode64(big.data(), in, n, &m)
-                                   : varintBP128DeltaEncode64(big.data(), in, n, &m);
+        varintBP128Meta *mp = c.u("nometa") ? nullptr : &m;
+        size_t w = k == "bp128.64" ? varintBP128Encode64(big.data(), in, n, mp)
+                                   : varintBP128DeltaEncode64(big.data(), in, n, mp);
         d.u64(w);
         d.bytes(big.data(), w);
         d.u64(k == "bp128.64" ? varintBP128Decode64(big.data(), out.data(), n)
@@ -343,9 +348,10 @@ uint64_t run_call(const Op &c, Shared &sh, int slice, int nslices) {
         Priv<uint8_t> big(varintAdaptiveMaxSize(n) * 2 + 4096);
         varintAdaptiveMeta m;
         memset(&m, 0, sizeof m);
+        varintAdaptiveMeta *mp = c.u("nometa") ? nullptr : &m;
         size_t w = k == "adaptive.rt"
-                       ? varintAdaptiveEncode(big.data(), in, n, &m)
-                       : varintAdaptiveEncodeWith(big.data(), in, n, (varintAdaptiveEncodingType)(enc % 6), &m);
+                       ? varintAdaptiveEncode(big.data(), in, n, mp)
+                       : varintAdaptiveEncodeWith(big.data(), in, n, (varintAdaptiveEncodingType)(enc % 6), mp);
         d.u64(w);
         d.bytes(big.data(), w);
         if (w) {
@@ -395,7 +401,7 @@ class FiberEngine : public Engine {
     bool restart_after_violation() const override { return true; }
     unsigned cold_start_every() const override { return 32; }
     std::vector<std::string> fixed_args() const override {
-        return {"task", "in", "enc", "family", "precision", "mode", "cfg", "bits", "threshold", "id"};
+        return {"task", "in", "enc", "family", "precision", "mode", "cfg", "bits", "threshold", "id", "nometa"};
     }
 
     Plan generate(uint64_t seed, Tier tier) override {
@@ -458,6 +464,7 @@ class FiberEngine : public Engine {
                 }
                 if (c.kind == "pfor.rt") c.set("threshold", r.chance(1, 2) ? 95 : (r.chance(1, 2) ? 90 : 99));
                 if (c.kind == "bitstream.slice") c.set("bits", r.below(64));
+                if (r.chance(1, 3)) c.set("nometa", 1); // optional metadata outputs passed as NULL
                 p.ops.push_back(c);
             }
         }
